@@ -88,6 +88,38 @@ fn fnan(v: Option<f64>) -> String {
     fx(v.unwrap_or(f64::NAN))
 }
 
+/// The draws a reaction update receives from a generator replaying `(words, fb)`, read off fresh
+/// replays of the same script with the same `rand` calls the component makes.
+fn witness_draws(kind: &str, lr: f64, words: &[u64], fb: u64) -> Vec<String> {
+    match kind {
+        "onwall" => {
+            let (id, mut g) = witness_rng(words, fb);
+            let a = catch(|| g.gen_range(lr..1.0));
+            unregister(id);
+            vec![fnan(a)]
+        }
+        "decomp" => {
+            let (id, mut g) = witness_rng(words, fb);
+            let da = catch(|| g.gen_range(0.0..=1.0));
+            unregister(id);
+            let (id, mut g) = witness_rng(words, fb);
+            let u = Uniform::new(0., 1.);
+            let d1: f64 = u.sample(&mut g);
+            let d2: f64 = u.sample(&mut g);
+            let db = catch(|| g.gen_range(0.0..=1.0));
+            unregister(id);
+            vec![fnan(da), fx(d1), fx(d2), fnan(db)]
+        }
+        "inter" => {
+            let (id, mut g) = witness_rng(words, fb);
+            let d4 = catch(|| g.gen_range(0.0..=1.0));
+            unregister(id);
+            vec![fnan(d4)]
+        }
+        _ => vec![],
+    }
+}
+
 fn run_reaction(kind: &str, args: &[Sx]) -> String {
     let mut pr = prepare(args);
     let lr = if kind == "onwall" { field(args, "lr")[0].float().unwrap() } else { 0.0 };
@@ -100,34 +132,7 @@ fn run_reaction(kind: &str, args: &[Sx]) -> String {
     let r = catch(|| c.execute(&TagProblem, &mut pr.state));
     unregister(pr.id);
     let status = match r { Some(Ok(())) => "ok", Some(Err(_)) => "err", None => "panic" };
-    // witness draws, read from fresh replays of the same script
-    let w: Vec<String> = match kind {
-        "onwall" => {
-            let (id, mut g) = witness_rng(&pr.words, pr.fb);
-            let a = catch(|| g.gen_range(lr..1.0));
-            unregister(id);
-            vec![fnan(a)]
-        }
-        "decomp" => {
-            let (id, mut g) = witness_rng(&pr.words, pr.fb);
-            let da = catch(|| g.gen_range(0.0..=1.0));
-            unregister(id);
-            let (id, mut g) = witness_rng(&pr.words, pr.fb);
-            let u = Uniform::new(0., 1.);
-            let d1: f64 = u.sample(&mut g);
-            let d2: f64 = u.sample(&mut g);
-            let db = catch(|| g.gen_range(0.0..=1.0));
-            unregister(id);
-            vec![fnan(da), fx(d1), fx(d2), fnan(db)]
-        }
-        "inter" => {
-            let (id, mut g) = witness_rng(&pr.words, pr.fb);
-            let d4 = catch(|| g.gen_range(0.0..=1.0));
-            unregister(id);
-            vec![fnan(d4)]
-        }
-        _ => vec![],
-    };
+    let w = witness_draws(kind, lr, &pr.words, pr.fb);
     let mut out = vec![status.to_string(), tagged("w", w)];
     out.extend(catch(|| state_s(&pr.state)).unwrap_or(vec!["(unreadable)".into()]));
     out.push(tagged("used", [pr.script.used().to_string()]));
@@ -171,12 +176,41 @@ struct CroVisitor {
     before: Option<String>,
     alpha: u32,
     beta: f64,
+    lr: f64,
+    /// every reaction update of the run as a prepared case (input, observed output)
+    react_cases: Vec<(String, String)>,
+    swapped: bool,
+    fb: u64,
+    script: Option<std::sync::Arc<Script>>,
+    id: u64,
+    shadow: Option<Sm>,
+    shadow_pos: usize,
+    used_before: usize,
+    /// interning table: equal individuals (solution and objective) get the same tag
+    intern: Vec<String>,
+    case_in: Option<String>,
+}
+impl CroVisitor {
+    fn tag_of(&mut self, key: String) -> u64 {
+        match self.intern.iter().position(|k| *k == key) {
+            Some(i) => i as u64 + 1,
+            None => { self.intern.push(key); self.intern.len() as u64 }
+        }
+    }
 }
 fn objs<Q: HProblem>(p: &[Individual<Q>]) -> String {
     list(p.iter().map(|i| if i.is_evaluated() { fx(i.objective().value()) } else { "u".into() }))
 }
 impl Visitor for CroVisitor {
     fn step<Q: HProblem>(&mut self, phase: Phase, name: &'static str, _index: usize, state: &State<Q>, _problem: &Q) {
+        if !self.swapped {
+            let (id, sc) = register(vec![], self.fb);
+            *state.random_mut() = Random::with_rng::<ScriptRng>(id);
+            self.script = Some(sc);
+            self.id = id;
+            self.shadow = Some(Sm::new(self.fb));
+            self.swapped = true;
+        }
         let short = if name.contains("OnWallIneffectiveCollisionUpdate") { "onwall" }
             else if name.contains("DecompositionUpdate") { "decomp" }
             else if name.contains("IntermolecularIneffectiveCollisionUpdate") { "inter" }
@@ -224,31 +258,77 @@ impl Visitor for CroVisitor {
                         list(["crit".into(), b(kind == "synth"), d(pop), d(sel)])
                     };
                     self.before = Some(format!("{} {} {} {} {} {} {}", pops.len(), objs(pop), kes, fx(buffer), objs(pops.peek(0)), objs(sel), crit));
+                    // the same state as a prepared component-level case (individuals interned to tags)
+                    if (0..pops.len()).all(|d| pops.peek(d).iter().all(|i| i.is_evaluated())) {
+                        let mut ind_s = |i: &Individual<Q>| {
+                            let o = i.objective().value();
+                            let t = self.tag_of(format!("{}@{}", Q::enc(i.solution()), fx(o)));
+                            list([t.to_string(), fx(o)])
+                        };
+                        let stack: Vec<String> = (0..pops.len()).map(|d| list(pops.peek(d).iter().map(&mut ind_s))).collect();
+                        let mols: Vec<String> = reaction.iter().map(|m| {
+                            let bs = ind_s(&m.best);
+                            let b = Sx::parse(&bs).unwrap();
+                            let bi = b.items().unwrap();
+                            list([fx(m.kinetic_energy), m.num_hit.to_string(), m.min_hit.to_string(), bi[0].render(), bi[1].render()])
+                        }).collect();
+                        self.used_before = self.script.as_ref().unwrap().used();
+                        let lr = if kind == "onwall" { format!(" (lr {})", fx(self.lr)) } else { String::new() };
+                        self.case_in = Some(format!("({}{} (fb 0) WORDS (buffer {}) {} {})", kind, lr, fx(buffer), tagged("mols", mols), tagged("stack", stack)));
+                    }
                 }
                 Phase::After => {
                     if let Some(bf) = self.before.take() {
                         self.steps.push(format!("(upd {} {} {} {} {} {})", kind, bf, pops.len(), objs(pops.get_current().unwrap_or(&[])), kes, fx(buffer)));
                     }
+                    if let Some(ci) = self.case_in.take() {
+                        let used1 = self.script.as_ref().unwrap().used();
+                        let sh = self.shadow.as_mut().unwrap();
+                        while self.shadow_pos < self.used_before { sh.next(); self.shadow_pos += 1; }
+                        let mut words = vec![];
+                        while self.shadow_pos < used1 { words.push(sh.next()); self.shadow_pos += 1; }
+                        let input = ci.replace("WORDS", &tagged("words", words.iter().map(|w| w.to_string())));
+                        let w = witness_draws(kind, self.lr, &words, 0);
+                        let mut ind_s = |i: &Individual<Q>| {
+                            let o = i.objective().value();
+                            let t = self.tag_of(format!("{}@{}", Q::enc(i.solution()), fx(o)));
+                            list([t.to_string(), fx(o)])
+                        };
+                        let stack: Vec<String> = (0..pops.len()).map(|d| list(pops.peek(d).iter().map(&mut ind_s))).collect();
+                        let mols: Vec<String> = reaction.iter().map(|m| {
+                            let bs = ind_s(&m.best);
+                            let b = Sx::parse(&bs).unwrap();
+                            let bi = b.items().unwrap();
+                            list([fx(m.kinetic_energy), m.num_hit.to_string(), m.min_hit.to_string(), bi[0].render(), bi[1].render()])
+                        }).collect();
+                        let output = list(["ok".to_string(), tagged("w", w), tagged("stack", stack), tagged("mols", mols),
+                            tagged("buffer", [fx(buffer)]), tagged("used", [words.len().to_string()])]);
+                        self.react_cases.push((input, output));
+                    }
                 }
             },
         }
     }
-    fn done<Q: HProblem>(&mut self, _outcome: &Outcome, _state: Option<&State<Q>>, _problem: &Q) {}
+    fn done<Q: HProblem>(&mut self, _outcome: &Outcome, _state: Option<&State<Q>>, _problem: &Q) {
+        if self.swapped { unregister(self.id); }
+    }
 }
 
+const CRO_LR: [f64; 3] = [0.2, 0.5, 0.9];
 const CRO_ALPHA: [u32; 3] = [5, 2, 50];
 const CRO_BETA: [f64; 3] = [0.1, 10.0, 1.0];
 
 /// `(run (v k) (i k) (iters n) (seed s) (alpha n) (beta x))`
-fn run_run(args: &[Sx]) -> String {
+fn run_run(args: &[Sx]) -> (String, Vec<(String, String)>) {
     let v = field(args, "v")[0].nat().unwrap() as u32;
     let i = field(args, "i")[0].nat().unwrap() as u32;
     let iters = field(args, "iters")[0].nat().unwrap() as u32;
     let seed = field(args, "seed")[0].nat().unwrap();
-    let vis = CroVisitor { alpha: field(args, "alpha")[0].nat().unwrap() as u32, beta: field(args, "beta")[0].float().unwrap(), ..Default::default() };
+    let vis = CroVisitor { alpha: field(args, "alpha")[0].nat().unwrap() as u32, beta: field(args, "beta")[0].float().unwrap(),
+        lr: field(args, "lr")[0].float().unwrap(), fb: seed, ..Default::default() };
     match run_template("real_cro", v, i, iters, seed, EvalKind::Sequential, vis) {
-        Ok((vis, outcome)) => list([outcome.tag().to_string(), tagged("steps", vis.steps)]),
-        Err(_) => "(ctor-err (steps))".into(),
+        Ok((vis, outcome)) => (list([outcome.tag().to_string(), tagged("steps", vis.steps)]), vis.react_cases),
+        Err(_) => ("(ctor-err (steps))".into(), vec![]),
     }
 }
 
@@ -258,7 +338,7 @@ fn run_case(input: &Sx) -> String {
         "onwall" | "decomp" | "inter" | "synth" => run_reaction(kind, args),
         "dcrit" | "scrit" => run_crit(kind, args),
         "init" => run_init(args),
-        "run" => run_run(args),
+        "run" => run_run(args).0,
         _ => panic!("unknown case kind {kind}"),
     }
 }
@@ -450,12 +530,22 @@ fn main() {
         let stack = if k % 10 == 9 { vec![] } else { vec![pop_str(&pop), pop_str(&[(1, 1.0)])] };
         emit("init", format!("(init (ke {}) (ibuf {}) (buffer {}) (mols ({} 1 0 1 {})) {})", fx(g.ke()), fx(g.ke()), fx(2.0), fx(1.0), fx(1.0), tagged("stack", stack)));
     }
+    drop(emit);
     let seeds = if a.thorough { 8 } else { 2 };
     for v in 0..3u32 {
         for i in 0..4u32 {
             for s in 0..seeds {
                 let iters = if a.thorough { 400 } else { 80 };
-                emit("run", format!("(run (v {}) (i {}) (iters {}) (seed {}) (alpha {}) (beta {}))", v, i, iters, a.seed * 100 + s, CRO_ALPHA[v as usize], fx(CRO_BETA[v as usize])));
+                let input = format!("(run (v {}) (i {}) (iters {}) (seed {}) (alpha {}) (beta {}) (lr {}))", v, i, iters, a.seed * 100 + s,
+                    CRO_ALPHA[v as usize], fx(CRO_BETA[v as usize]), fx(CRO_LR[v as usize]));
+                let sx = Sx::parse(&input).unwrap();
+                let (_, args) = sx.head().unwrap();
+                let (output, cases) = run_run(args);
+                out.case("run", &input, &output);
+                for (ci, co) in cases {
+                    let site = format!("run-{}", ci[1..].split(' ').next().unwrap_or("x"));
+                    out.case(&site, &ci, &co);
+                }
             }
         }
     }
